@@ -927,6 +927,14 @@ def gen_C14(rng, tier):
         if rng.random() < 0.2:
             xs = list({x for x, _ in pairs})[:2]; ys = list({y for _, y in pairs})[:3]
             pairs = {(x, y) for x in xs for y in ys}   # grid
+        if desc[0] == "P" and desc_card(desc) > 30 and rng.random() < 0.5:
+            # distinct points whose printed coordinates concatenate to the same text: (d, ef) and (de, f)
+            pch = desc_card(desc)
+            for _ in range(20):
+                d0, e0, f0 = rng.randrange(1, 10), rng.randrange(0, 10), rng.randrange(0, 10)
+                if 10 * e0 + f0 < pch and 10 * d0 + e0 < pch and e0 != 0 and (d0, 10 * e0 + f0) != (10 * d0 + e0, f0):
+                    pairs = set(list(pairs)[:2]) | {(str(d0), str(10 * e0 + f0)), (str(10 * d0 + e0), str(f0))}
+                    break
         xs, ys, vs = [], [], []
         for (x, y) in pairs:
             xs.append(h.elem(x)); ys.append(h.elem(y)); vs.append(h.elem() if rng.random() < 0.8 else h.elem("0"))
@@ -958,9 +966,16 @@ ADMISSIBLE_UNI = ["X", "x", "T", "Var", "t1", "Z"]
 ADMISSIBLE_BIV = [("X", "Y"), ("x", "y"), ("S", "T"), ("u", "v"), ("Y", "X"), ("p1", "q2"), ("Zed", "W")]
 
 
+def field_var(desc):
+    t = desc.split(":")
+    if t[0] == "B" and len(t) == 4:
+        return bytes.fromhex(t[3]).decode()
+    return None if t[0] == "P" else "a"
+
+
 def names_ok(desc, names):
-    """admissible: ASCII letter followed by letters/digits; pairwise no prefix relation ignoring case, also with the field variable 'a'"""
-    allv = [n.lower() for n in names] + ([] if desc[0] == "P" else ["a"])
+    """admissible: ASCII letter followed by letters/digits; pairwise no prefix relation ignoring case, also with the field variable"""
+    allv = [n.lower() for n in names] + ([] if desc[0] == "P" else [field_var(desc).lower()])
     for i, a in enumerate(allv):
         for j, b in enumerate(allv):
             if i != j and (a.startswith(b) or b.startswith(a)):
@@ -990,6 +1005,8 @@ def gen_C15(rng, tier):
     n = 1500 if tier == "thorough" else 300
     for _ in range(n):
         desc = pick_field(rng, small=0.6, mid=0.3)
+        if desc[0] == "B" and rng.random() < 0.5:
+            desc += ":" + hexs(rng.choice(["b", "z", "t2", "al", "A"]))      # binfield.SetVarName
         uv = rng.choice(ADMISSIBLE_UNI)
         bv = rng.choice(ADMISSIBLE_BIV)
         if not names_ok(desc, [uv]) or not names_ok(desc, list(bv)):
